@@ -188,6 +188,77 @@ def run(ctx):
                            "returns a copy built by %s" % src(v.func),
                            loc=m.loc(fi, n), nontrivial=False)
 
+    # R3: second-level sharing.  getdefault() copies only the outer
+    # container, so after default injection (finish) the *elements* of a slot
+    # container may be the schema's own lists: finish() and constuct() may
+    # replace them (v[key] = new list) but never mutate them in place.
+    from zcstatic import absint as A
+
+    def depth(t):
+        """Nesting depth below self._values: 0 = the slot table, 1 = a slot
+        container, 2 = an element of a slot container, ..."""
+        if A.fmt(t) == "self._values":
+            return 0
+        if t[0] == "index":
+            inner = t[1]
+            if inner[0] == "call" and inner[1][0] == "attr" \
+                    and inner[1][2] in ("items", "values", "keys"):
+                d = depth(inner[1][1])
+                return None if d is None else d + 1
+            d = depth(inner)
+            if d is None:
+                return None
+            # a constant index into an (key, value) item is not a new level
+            if inner[0] == "index" and inner[1][0] == "call" \
+                    and inner[1][1][0] == "attr" \
+                    and inner[1][1][2] == "items" and A.is_const(t[2]):
+                return d
+            return d + 1
+        if t[0] == "call" and t[1][0] == "attr" and t[1][2] in (
+                "getdefault",) :
+            return 1
+        return None
+
+    n_checked = 0
+    bad = []
+    for q in ("ZConfig.matcher.BaseMatcher.finish",
+              "ZConfig.matcher.BaseMatcher.constuct"):
+        f = m.fn(q)
+        for p in A.Interp(f, P).paths():
+            for e in p.effects:
+                recv = None
+                if e[0] in ("slice-store", "item-store"):
+                    recv = e[1]
+                    what = e[0]
+                elif e[0] == "call" and e[1][1][0] == "attr" \
+                        and e[1][1][2] in O.MUTATING_METHODS:
+                    recv = e[1][1][1]
+                    what = e[1][1][2]
+                if recv is None:
+                    continue
+                d = depth(recv)
+                if d is None:
+                    continue
+                n_checked += 1
+                if d >= 2:
+                    txt = "%s on %s" % (what, A.fmt(recv))
+                    if (q, txt) not in bad:
+                        bad.append((q, txt))
+    run.rule("C13.R3", "after default injection, elements of slot containers "
+             "(possibly the schema's own default lists) are replaced, never "
+             "mutated in place")
+    for q, txt in bad:
+        run.fail("C13.R3", q, txt,
+                 "an element of a slot container is mutated in place: when "
+                 "the slot was filled from the schema's defaults "
+                 "(getdefault() copies only the outer container) this "
+                 "overwrites the schema's own default list -- the next load "
+                 "sees converted values", loc=m.loc(m.fn(q), m.fn(q).node))
+    if not bad:
+        run.ok("C13.R3", "ZConfig.matcher.BaseMatcher.finish/constuct",
+               "in-place mutations below the slot containers",
+               "none among %d mutating effects on the slot table" % n_checked)
+
     # R4
     crosscheck(ctx, "C13.R4", "ZConfig.datatypes.MemoizedConversion.__call__",
                RI, "memo_call", "ZConfig.datatypes.MemoizedConversion",
